@@ -55,6 +55,8 @@ class SimFS:
         self.oplog = []  # [(n, opname, path)]
         self.plan = {}  # n -> kind
         self.fired = []  # [(n, opname, kind)]
+        self.dead = False  # set by a crash when die_on_crash: every later operation (other threads) crashes too
+        self.die_on_crash = False
         self.trace = None  # optional callable(opname, path)
 
     # ------------------------------------------------------------------ misc
@@ -124,6 +126,8 @@ class SimFS:
         post-operation crash to raise (``crash_after``) or None."""
         if self.trace is not None:
             self.trace(opname, path)
+        if self.dead:
+            raise Crash(f"process already dead at {opname}")  # other threads of a crashed process do nothing more
         if not self.armed:
             return None
         n = self.opno
@@ -134,6 +138,7 @@ class SimFS:
             return None
         self.fired.append((n, opname, kind))
         if kind == "crash_before":
+            self.dead = self.die_on_crash
             raise Crash(f"crash before {opname}#{n}")
         if kind == "crash_after":
             return "crash_after"
@@ -148,9 +153,9 @@ class SimFS:
                 raise OSError(errno.ENOSPC, "No space left on device (simulated)", path)
         return None
 
-    @staticmethod
-    def _after(post, opname):
+    def _after(self, post, opname):
         if post == "crash_after":
+            self.dead = self.die_on_crash
             raise Crash(f"crash after {opname}")
 
     # ------------------------------------------------------------------ os.*
@@ -402,7 +407,7 @@ class SimWriteFile:
             raise OSError(errno.ENOSPC, "No space left on device (simulated)", self.path)
         self._put(data)
         del self.buf[:]
-        SimFS._after(post, opname)
+        self.fs._after(post, opname)
 
     def _put(self, data):
         cache = self.inode.cache
@@ -432,7 +437,7 @@ class SimWriteFile:
             post = self.fs._point("flush", self.path)
             if post == "ENOSPC":
                 post = None
-            SimFS._after(post, "flush")
+            self.fs._after(post, "flush")
 
     def close(self):
         if self.closed:
@@ -444,7 +449,7 @@ class SimWriteFile:
                 post = self.fs._point("close", self.path)
                 if post == "ENOSPC":
                     post = None
-                SimFS._after(post, "close")
+                self.fs._after(post, "close")
         finally:
             self.closed = True
             self.fs.fds.pop(self.fd, None)
